@@ -2,6 +2,7 @@
 from ..core import digest_of, san
 from ..net import NetWorld
 from ..tcp import FaultLink, make_sender, MSS
+from onl.netdev import Port, Wire
 from onl.packet import Packet, TCPSink
 
 ID = 'C16'
@@ -19,7 +20,7 @@ ASSUMPTIONS = ['flow sizes are multiples of the MSS (512)', 'completion is deman
                'simulated-time bound; runs that hit the step cap before that bound are inconclusive, not violations',
                'the no-duplicate clause applies only to fault-free runs in which the path RTT was below the sender\'s RTO at '
                'every transmission']
-PROBES = ['sub_sink', 'sub_e2e', 'sub_clean', 'rto_fired', 'fast_retransmit', 'ack_lost', 'data_lost', 'duplicate_delivered',
+PROBES = ['real_path', 'tail_drop_on_path', 'sub_sink', 'sub_e2e', 'sub_clean', 'rto_fired', 'fast_retransmit', 'ack_lost', 'data_lost', 'duplicate_delivered',
           'overtaken', 'cc_cubic', 'completed', 'inconclusive', 'first_segment_missing', 'sink_duplicate', 'sink_gap',
           'clean_precondition_held']
 
@@ -61,7 +62,14 @@ def gen(rng, tier):
         case['segments'] = rng.choice([n, 140, 200, 260])
         case['rtt_est'] = rng.choice([0.001, 0.01, 1.0])
         case['short_path'] = True
-    if r < 0.4:
+    if rng.random() < 0.15 and not case.get('short_path'):
+        # the two ends are joined through real elements: an output port (finite line rate, optional tail-drop limit) and
+        # a wire per direction, in addition to the scripted fault links
+        case['path'] = {'rate': rng.choice([100000, 400000, 1 << 20]), 'qlimit': rng.choice([None, None, 3, 5, 8]),
+                        'wire': rng.choice([0, 0.01, 0.05]), 'wire_ack': rng.choice([0, 0.01, 0.05])}
+        case['d_data'] = rng.choice([0, 0.01, 0.05])
+        case['d_ack'] = rng.choice([0, 0.01, 0.05])
+    if r < 0.4 and not case.get('path'):
         case['sub'] = 'clean'
         if not case.get('short_path'):
             case['rtt_est'] = rng.choice([0.3, 1.0, 3.0])
@@ -87,6 +95,30 @@ class AckRec:
 
     def put(self, p):
         self.w.rec('ACK', p.ack, p.packet_id, p.flow_id, san(p.time))
+
+
+class SinkTap:
+    """Records what actually reaches the sink when real elements sit between the fault link and the sink."""
+
+    def __init__(self, w, sink):
+        self.w, self.sink = w, sink
+
+    def put(self, p):
+        self.w.rec('RXS', 'data', None, p.packet_id)
+        self.sink.put(p)
+
+
+class DropWatch:
+    """In front of the path's output port: notes tail drops (they are faults of the path, finitely many)."""
+
+    def __init__(self, w, port):
+        self.w, self.port = w, port
+
+    def put(self, p):
+        before = self.port.packets_dropped
+        self.port.put(p)
+        if self.port.packets_dropped != before:
+            self.w.rec('PD', p.packet_id)
 
 
 def prefix_len(have):
@@ -142,9 +174,24 @@ def run_e2e(w, case):
     sink = TCPSink(env)
     fd = {} if clean else case.get('faults_data', {})
     fa = {} if clean else case.get('faults_ack', {})
-    data_link = FaultLink(w, 'data', sink, fd, case.get('d_data', 0.05))
-    sender, flow = make_sender(w, case, data_link)
-    ack_link = FaultLink(w, 'ack', sender, fa, case.get('d_ack', 0.05))
+    path = case.get('path')
+    port = None
+    if path:
+        stats['real_path'] = 1
+        at_sink = SinkTap(w, sink)
+        wire_d = Wire(env, lambda: path.get('wire', 0.01))
+        wire_d.out = at_sink
+        port = Port(env, path.get('rate', 400000), path.get('qlimit'), False, 'p0')
+        port.out = wire_d
+        data_link = FaultLink(w, 'data', DropWatch(w, port), fd, case.get('d_data', 0.05))
+        sender, flow = make_sender(w, case, data_link)
+        wire_a = Wire(env, lambda: path.get('wire_ack', 0.01))
+        wire_a.out = sender
+        ack_link = FaultLink(w, 'ack', wire_a, fa, case.get('d_ack', 0.05))
+    else:
+        data_link = FaultLink(w, 'data', sink, fd, case.get('d_data', 0.05))
+        sender, flow = make_sender(w, case, data_link)
+        ack_link = FaultLink(w, 'ack', sender, fa, case.get('d_ack', 0.05))
     sink.out = ack_link
     if case.get('cc') == 'cubic':
         stats['cc_cubic'] = 1
@@ -166,9 +213,12 @@ def run_e2e(w, case):
     rtt = case.get('d_data', 0.05) + case.get('d_ack', 0.05)
     for r in w.log:
         tag = r[0]
-        if tag == 'RX' and r[3] == 'data':
+        if tag == ('RXS' if path else 'RX') and r[3] == 'data':
             have.add(r[5] // MSS)
             pending = prefix_len(have)
+        elif tag == 'PD':
+            last_fault_t = r[2]
+            stats['tail_drop_on_path'] = 1
         elif tag == 'TX' and r[3] == 'ack':
             if pending is None:
                 viol.append(('C16.1', 'the sink sent an ACK without receiving a segment'))
@@ -220,7 +270,10 @@ def run_e2e(w, case):
     if any(c > 1 for c in seen_seq.values()) and not stats.get('rto_fired'):
         stats['fast_retransmit'] = 1
     nontrivial = bool(fd or fa) and any(r[0] == 'TX' and r[7] != 'ok' for r in w.log)
-    return viol, stats, nontrivial or clean
+    if port is not None and w.quiescent and (len(port.store.items) or port.byte_size):
+        viol.append(('C16.2', 'the output port on the path still holds %d packets / %r bytes after the run' %
+                     (len(port.store.items), port.byte_size)))
+    return viol, stats, nontrivial or clean or bool(stats.get('tail_drop_on_path'))
 
 
 def run(case):
